@@ -11,6 +11,7 @@ import (
 	"strings"
 	"testing"
 
+	"github.com/evolbioinfo/goalign/align"
 	"github.com/evolbioinfo/goalign/distance/protein"
 	pm "github.com/evolbioinfo/goalign/models/protein"
 	"pgregory.net/rapid"
@@ -76,6 +77,7 @@ type dCase struct {
 	Cfg     config    `json:"cfg"`
 	Weights []float64 `json:"weights"` // nil or one non-negative weight per column
 	Scale   float64   `json:"scale"`   // > 0: the matrix is also computed with every weight multiplied by it
+	Plan    gen.Plan  `json:"plan"`    // chain of public operations that produces the alignment object (empty: built afresh)
 	RowPerm []int     `json:"rowperm"`
 	ColPerm []int     `json:"colperm"`
 }
@@ -162,7 +164,9 @@ func genConfig(t *rapid.T, cliOnly bool) config {
 	c.Model = rapid.SampledFrom(modelNames).Draw(t, "model")
 	c.ModelFreqs = cliOnly || rapid.Bool().Draw(t, "modelfreqs")
 	c.Gamma = rapid.Bool().Draw(t, "gamma")
-	if c.Gamma {
+	// the gamma switch and the shape are two independent arguments of NewProtDistModel: with gamma off
+	// a shape is passed too, two times out of three, and must be ignored
+	if c.Gamma || rapid.IntRange(0, 2).Draw(t, "alphaoff") > 0 {
 		switch rapid.IntRange(0, 5).Draw(t, "akind") {
 		case 0:
 			c.Alpha = 0.2
@@ -213,6 +217,9 @@ func genDist(t *rapid.T) dCase {
 	c.Cfg = genConfig(t, false)
 	l := c.Ali.Length()
 	c.Weights = genWeights(t, l)
+	if rapid.IntRange(0, 2).Draw(t, "provenance") == 0 {
+		c.Plan = gen.DrawPlan(t, c.Ali, aa20+"-X*", 3)
+	}
 	switch rapid.IntRange(0, 5).Draw(t, "scalekind") {
 	case 0, 1: // exact power of two: the scaled weights are exact
 		c.Scale = math.Pow(2, float64(rapid.IntRange(-30, 30).Draw(t, "scale2")))
@@ -239,6 +246,9 @@ func domainOK(a gen.Ali, cfg config, weights []float64) bool {
 		}
 	}
 	if cfg.Gamma && !(cfg.Alpha >= 0.2 && cfg.Alpha <= 5) {
+		return false
+	}
+	if !cfg.Gamma && cfg.Alpha != 0 && !(cfg.Alpha >= 0.2 && cfg.Alpha <= 5) {
 		return false
 	}
 	if weights != nil {
@@ -276,7 +286,11 @@ func isPerm(p []int, n int) bool {
 // ---- the code under test --------------------------------------------------------------------------------
 
 func mlDist(a gen.Ali, cfg config, weights []float64) ([][]float64, error) {
-	al := gen.MustBuild(a)
+	return mlDistOn(gen.MustBuild(a), a, cfg, weights)
+}
+
+// mlDistOn: the same on an alignment object obtained in another way but holding the content a
+func mlDistOn(al align.Alignment, a gen.Ali, cfg config, weights []float64) ([][]float64, error) {
 	m, err := protein.NewProtDistModel(modelCode(cfg.Model), cfg.ModelFreqs, cfg.Gamma, cfg.Alpha, cfg.RmGaps)
 	if err != nil {
 		return nil, err
@@ -628,13 +642,13 @@ func judge(a gen.Ali, cfg config, weights []float64, d [][]float64, o *pbt.Outco
 	}
 	strict, e := newReading(a, cfg, w, true)
 	if e != nil {
-		return v, fmt.Errorf("harness: %v", e)
+		return v, fmt.Errorf("reference model: %v", e)
 	}
 	readings := []*reading{strict}
 	if cfg.RmGaps {
 		loose, e := newReading(a, cfg, w, false)
 		if e != nil {
-			return v, fmt.Errorf("harness: %v", e)
+			return v, fmt.Errorf("reference model: %v", e)
 		}
 		for j := range loose.sel {
 			if loose.sel[j] != strict.sel[j] {
@@ -758,9 +772,20 @@ func checkDist(c dCase) (o pbt.Outcome, err error) {
 		o.Skip = true
 		return o, nil
 	}
-	d, e := mlDist(c.Ali, c.Cfg, c.Weights)
+	// the alignment object: built afresh, or produced by a chain of public operations ending on the same
+	// content (clone, rename cycle, cut window, select sites, clean, concat, append, re-parse ...)
+	al := gen.MustBuild(c.Ali)
+	if len(c.Plan.Steps) > 0 {
+		if via, usable := gen.BuildVia(c.Ali, c.Plan); usable {
+			al = via
+			o.Class("provenance: %s", c.Plan.String())
+		} else {
+			o.Class("provenance-unusable")
+		}
+	}
+	d, e := mlDistOn(al, c.Ali, c.Cfg, c.Weights)
 	if e != nil {
-		return o, fmt.Errorf("no distance matrix for a valid protein alignment: %v", e)
+		return o, fmt.Errorf("no distance matrix for a valid protein alignment (object: %s): %v", c.Plan.String(), e)
 	}
 	v, err := judge(c.Ali, c.Cfg, c.Weights, d, &o)
 	if err != nil {
@@ -901,6 +926,9 @@ func classes(o *pbt.Outcome, cfg config, weighted bool) {
 	}
 	o.Class("model=%s", cfg.Model)
 	o.Class("freq=%s gamma=%v", freq, cfg.Gamma)
+	if !cfg.Gamma && cfg.Alpha != 0 {
+		o.Class("gamma off with a shape passed")
+	}
 	o.Class("rmgaps=%v weights=%v", cfg.RmGaps, weighted)
 }
 
@@ -1226,6 +1254,9 @@ func TestCLI(t *testing.T) {
 			}
 		}
 		c.Cfg = genConfig(t, true)
+		if !c.Cfg.Gamma {
+			c.Cfg.Alpha = 0 // on the command line --alpha is what switches gamma on
+		}
 		if len(c.Alis) > 1 && rapid.IntRange(0, 3).Draw(t, "forcerm") > 0 {
 			c.Cfg.RmGaps = true
 		}
